@@ -825,6 +825,8 @@ fn main() {
             for c in extra.split(',').filter(|c| !c.is_empty()) {
                 args.push("--cfg".to_string());
                 args.push(c.to_string());
+                // lets the witness harness tell a real compile of the witness cfg from a run cargo answered from its cache
+                eprintln!("feoxlint-witness-cfg: {} crate={}", c, crate_name);
             }
         }
     }
